@@ -272,7 +272,10 @@ AltVal(f, acc, envv, pool) ==
           ELSE IF Leftover(f, R0) THEN [ok |-> FALSE, why |-> [k |-> "leftover"]]
           ELSE IF f.arity = "opt" THEN [ok |-> TRUE, v |-> "NONE", pool |-> pool]
           \* a defaulted choice / group (`fallback`, `fallback_with`): the default stands in only when nothing of it was typed
-          ELSE IF f.arity \in {"fallback", "fallback_with"} THEN [ok |-> TRUE, v |-> [v |-> 0, x |-> BranchDefault(f.branches[1])], pool |-> pool]
+          ELSE IF f.arity \in {"fallback", "fallback_with"}
+          THEN \* (a validation that refuses the default itself fails the run when the default is what comes out)
+               IF "gdflt" \in DOMAIN f /\ f.gdflt THEN [ok |-> FALSE, why |-> [k |-> "guard", id |-> f.id]]
+               ELSE [ok |-> TRUE, v |-> [v |-> 0, x |-> BranchDefault(f.branches[1])], pool |-> pool]
           ELSE [ok |-> FALSE, why |-> [k |-> "missing", id |-> f.id]]
      ELSE LET w  == IF S # {} THEN CHOOSE b \in S : \A c \in S : A[b].left < A[c].left \/ (A[b].left = A[c].left /\ b <= c)
                     ELSE MinOf(Z)
